@@ -6,6 +6,7 @@ package harness
 import (
 	"encoding/xml"
 	"fmt"
+	"io"
 	"os"
 	"strings"
 	"sync"
@@ -29,6 +30,29 @@ type c08Case struct {
 	SizeClass int    `json:"size_class"` // 0 small, 1 mixed, 2 large (up to 64 KB)
 	Spice     string `json:"spice"`      // text put into every payload (format verbs, escapes, template syntax, non-ASCII); XML-safe as it is also used raw
 	AfterDisc bool   `json:"after_disconnect"`
+	// LogFault > 0 (with Logger): every LogFault-th write to the traffic log is short (half the bytes, io.ErrShortWrite).
+	// A send may then fail, but whatever it returns, the wire must stay exact.
+	LogFault int `json:"log_fault,omitempty"`
+}
+
+// faultyLog is a traffic-log sink that short-writes every n-th call.
+type faultyLog struct {
+	mu    sync.Mutex
+	calls int
+	every int
+	w     *os.File
+}
+
+func (f *faultyLog) Write(p []byte) (int, error) {
+	f.mu.Lock()
+	f.calls++
+	bad := f.every > 0 && f.calls%f.every == 0 && len(p) > 1
+	f.mu.Unlock()
+	if bad {
+		_, _ = f.w.Write(p[:len(p)/2])
+		return len(p) / 2, io.ErrShortWrite
+	}
+	return f.w.Write(p)
 }
 
 func genC08(t *rapid.T) c08Case {
@@ -45,6 +69,9 @@ func genC08(t *rapid.T) c08Case {
 	if c.Entity == "client" {
 		c.Transport = rapid.SampledFrom([]string{"tcp", "tcp", "tls", "ws"}).Draw(t, "transport")
 		c.SM = rapid.Bool().Draw(t, "sm")
+	}
+	if c.Logger && c.Entity == "client" && c.Transport != "ws" && rapid.Bool().Draw(t, "logFault") {
+		c.LogFault = rapid.IntRange(2, 9).Draw(t, "logFaultEvery")
 	}
 	if c.SizeClass == 2 && c.G*c.K > 200 {
 		c.K = 200/c.G + 1
@@ -242,12 +269,20 @@ func runC08(c c08Case) vh.Result {
 				return res
 			}
 			_ = cfg
+			var flog *faultyLog
 			if logFile != nil {
-				xmpp.VerifGetTransport(cl).LogTraffic(logFile)
+				flog = &faultyLog{w: logFile} // faults are switched on after the session is up
+				xmpp.VerifGetTransport(cl).LogTraffic(flog)
 			}
 			if err := cl.Connect(); err != nil {
 				res.Fail("harness-connect", "Connect: %v", err)
 				return res
+			}
+			if flog != nil && c.LogFault > 0 {
+				res.Label("faulty-traffic-log")
+				flog.mu.Lock()
+				flog.every = c.LogFault
+				flog.mu.Unlock()
 			}
 			sender, disconnect = cl, cl.Disconnect
 		}
@@ -334,6 +369,13 @@ func runC08(c c08Case) vh.Result {
 		for _, s := range l {
 			recv := got[s.id]
 			switch {
+			case s.err != nil && c.LogFault > 0:
+				// the traffic log failed: the call may report that; the wire is judged by the other cases only if it returned nil
+				if len(recv) > 1 {
+					res.Fail("stanza-duplicated", "%s: %s arrived %d times", desc, s.id, len(recv))
+				} else if len(recv) == 1 && recv[0] != s.want {
+					res.Fail("wire-bytes-differ", "%s: %s (%s) arrived as %s, expected %s", desc, s.id, s.kind, trunc(recv[0], 200), trunc(s.want, 200))
+				}
 			case s.err != nil && len(recv) == 0:
 				// failed send, nothing arrived: consistent (not expected on a healthy connection)
 				res.Fail("send-error-on-healthy-connection", "%s: %s of %s returned %v", desc, s.kind, s.id, s.err)
@@ -408,7 +450,7 @@ func runC08(c c08Case) vh.Result {
 
 var c08 = vh.Define(&vh.Def[c08Case]{
 	Property: "C08", Name: "send",
-	Rule: "G in 1-16 goroutines x K in 1-50 sends each of Send(message) / SendRaw(string) / SendIQ(iq) with unique ids and payloads of 10 B - 64 KB (30 KB over WebSocket) carrying a generated 'spice' text (printf verbs, backslash escapes, template / shell syntax, quotes, non-ASCII) x {client over TCP, TLS, WebSocket; component over TCP} x stream management on/off x traffic logger on/off, optionally followed by Disconnect and two more sends; the scripted peer records every element with its exact bytes; oracle: every send that returned nil arrived exactly once with exactly the bytes of xml.Marshal(packet) / the raw string, nothing else arrived, nothing unparsable arrived, no send failed on a healthy connection, with SM every accepted stanza is held exactly once, sends after Disconnect return an error and do not panic; non-trivial = G >= 2 and K >= 5, or the after-Disconnect step",
+	Rule: "G in 1-16 goroutines x K in 1-50 sends each of Send(message) / SendRaw(string) / SendIQ(iq) with unique ids and payloads of 10 B - 64 KB (30 KB over WebSocket) carrying a generated 'spice' text (printf verbs, backslash escapes, template / shell syntax, quotes, non-ASCII) x {client over TCP, TLS, WebSocket; component over TCP} x stream management on/off x traffic logger on/off (optionally with a log sink that short-writes every n-th call), optionally followed by Disconnect and two more sends; the scripted peer records every element with its exact bytes; oracle: every send that returned nil arrived exactly once with exactly the bytes of xml.Marshal(packet) / the raw string, nothing else arrived, nothing unparsable arrived, no send failed on a healthy connection, with SM every accepted stanza is held exactly once, sends after Disconnect return an error and do not panic; non-trivial = G >= 2 and K >= 5, or the after-Disconnect step",
 	Quick: 120, Thorough: 4000, Journal: true,
 	Gen: genC08, Run: runC08,
 })
